@@ -527,7 +527,7 @@ func (f *Frame) enterLoop(li *LoopInfo, b *ssa.BasicBlock, reach string, st *Sta
 			continue
 		}
 		before := e.getHeap(st, h, sortS)
-		nh := e.fresh("hl_"+h, sortS)
+		nh := e.freshHeap("hl_", h, sortS, na)
 		st.heaps[h] = nh
 		f.autoFrame(h, sortS, before, nh, allocBefore)
 	}
